@@ -485,7 +485,18 @@ class Net:
         self.settle(k)
 
     def main_update(self, k):
-        self.nodes[k].dist._update()
+        """one pass of node k's run() loop body.  An exception out of _update() ends the real run() thread: from then
+        on nothing that arrives at k is dispatched any more (recorded in self.main_errors)."""
+        if not hasattr(self, "main_errors"):
+            self.main_errors = {}
+        nd = self.nodes[k]
+        if (k, id(nd)) in self.main_errors:
+            return
+        try:
+            nd.dist._update()
+        except Exception as ex:      # noqa
+            self.main_errors[(k, id(nd))] = "%s: %s" % (type(ex).__name__, ex)
+            return
         self.settle(k)
 
     def out_iter(self, k, table=None):
